@@ -125,6 +125,27 @@ class Run:
         self.count = {}
         self.log = []
         self.cls = None
+        self.running = []        # (activation id, group) of the callbacks currently between begin and end
+        self.overlap = 0         # times a callback began while one of another activation / group was running
+        self.group_of = {}
+        for t in sc["trans"]:
+            for key in ("val", "before", "on", "after"):
+                for nm in t[key]:
+                    self.group_of.setdefault(tuple(nm), set()).add(key)
+            for nm, _ in t["cond"]:
+                self.group_of.setdefault(tuple(nm), set()).add("cond")
+        for st in sc["states"]:
+            for key in ("enter", "exit"):
+                for nm in st[key]:
+                    self.group_of.setdefault(tuple(nm), set()).add(key)
+
+    def group(self, kind, k):
+        conv = {1: "before", 2: "on", 3: "after", 4: "before", 5: "on", 6: "after", 7: "enter", 8: "exit",
+                9: "enter", 10: "exit"}
+        if kind in conv:
+            return conv[kind]
+        g = self.group_of.get((kind, k), set())
+        return next(iter(g)) if len(g) == 1 else None
 
     def csv(self, machine):
         v = machine.current_state_value
@@ -178,6 +199,19 @@ def _cb(p, kind, k, isg, kw):
 
 async def _acb(p, kind, k, isg, kw):
     R, script, m = _enter(p, kind, k, isg, kw)
+    mark = (id(kw.get("event_data")), R.group(kind, k))
+    if mark[1] is not None:
+        if any(x != mark for x in R.running):
+            R.overlap += 1
+        R.running.append(mark)
+    try:
+        return await _acb_body(R, script, m)
+    finally:
+        if mark[1] is not None:
+            R.running.remove(mark)
+
+
+async def _acb_body(R, script, m):
     for act in script["a"]:
         if act[0] == "send":
             try:
@@ -359,64 +393,156 @@ def call_style(sm, style, name, tag, ns):
     raise ValueError(style)
 
 
+class _Workers:
+    """a few OS threads without event loops, taking operations in turn; on close each one closes the
+    loop the library cached for it (statemachine.utils._cached_loop is thread-local)"""
+
+    def __init__(self, n):
+        import queue
+        import threading
+        self.qs = [queue.Queue() for _ in range(n)]
+        self.ths = [threading.Thread(target=self._loop, args=(q,), daemon=True) for q in self.qs]
+        for t in self.ths:
+            t.start()
+
+    @staticmethod
+    def _loop(q):
+        while True:
+            job, box, done = q.get()
+            if job is None:
+                try:
+                    from statemachine import utils
+                    lp = getattr(utils._cached_loop, "loop", None)
+                    if lp is not None:
+                        lp.close()
+                except Exception:  # noqa: BLE001
+                    pass
+                done.set()
+                return
+            try:
+                box["r"] = job()
+            except Exception as e:  # noqa: BLE001
+                box["e"] = e
+            done.set()
+
+    def call(self, i, job):
+        import threading
+        box, done = {}, threading.Event()
+        self.qs[i].put((job, box, done))
+        done.wait()
+        if "e" in box:
+            raise box["e"]
+        return box["r"]
+
+    def close(self):
+        import threading
+        for q in self.qs:
+            done = threading.Event()
+            q.put((None, None, done))
+            done.wait(5)
+
+
+def _finish_sync(coro):
+    """run a coroutine that never really suspends (plain driver: the library resolves everything)"""
+    try:
+        coro.send(None)
+    except StopIteration as stop:
+        return stop.value
+    raise RuntimeError("plain driver suspended")
+
+
 def run_impl(sc):
-    """Execute the scenario on the real library; returns the list of observations (one per op)."""
+    """Execute the scenario on the real library; returns the list of observations (one per op).
+
+    sc["driver"]: "plain" (default) synchronous calls with no event loop; "loop" the whole history is
+    awaited inside asyncio.run; "threads" each operation runs in its own OS thread (no loops)."""
     global RUN
+    import gc
+    import threading
     RUN = R = Run(sc)
     ns = {}
     _clear_signature_cache()
-    with warnings.catch_warnings():
-        warnings.simplefilter("ignore")
-        exec(compile(render_source(sc), "<scenario>", "exec"), ns)  # noqa: S102
-        R.cls = ns["M"]
-        model = ns["Mdl"]()
-        if sc.get("field0") is not None:
-            model.state = state_value(sc, sc["field0"])
-        listeners = ns["LISTENERS"]
-        sm = None
-        obs = []
-        for op in sc["ops"]:
-            R.log = []
-            try:
+    driver = sc.get("driver", "plain")
+    with warnings.catch_warnings(record=True) as wlist:
+        warnings.simplefilter("always")
+
+        async def history():
+            exec(compile(render_source(sc), "<scenario>", "exec"), ns)  # noqa: S102
+            R.cls = ns["M"]
+            model = ns["Mdl"]()
+            if sc.get("field0") is not None:
+                model.state = state_value(sc, sc["field0"])
+            listeners = ns["LISTENERS"]
+            box = {"sm": None}
+            obs = []
+
+            def step(op):
+                sm = box["sm"]
                 if op[0] == "construct":
-                    sm = None
-                    sm = ns["construct"](model, listeners)
-                    r = None
-                elif op[0] == "send":
-                    r = sm.send(evname(op[1]), tag=op[2])
-                elif op[0] == "call":
-                    r = call_style(sm, op[1], evname(op[2]), op[3], ns)
-                elif op[0] == "activate":
-                    r = sm.activate_initial_state()
-                elif op[0] == "write":
+                    box["sm"] = None
+                    box["sm"] = ns["construct"](model, listeners)
+                    return None
+                if op[0] == "send":
+                    return sm.send(evname(op[1]), tag=op[2])
+                if op[0] == "call":
+                    return call_style(sm, op[1], evname(op[2]), op[3], ns)
+                if op[0] == "activate":
+                    return sm.activate_initial_state()
+                if op[0] == "write":
                     sm.current_state_value = state_value(sc, op[1])
-                    r = None
-                else:
-                    raise ValueError(op)
-                out = ["v", to_json(r)]
-            except Exception as e:  # noqa: BLE001
-                out = ["x", exn_json(e)]
-            fv = getattr(model, "state", None)
-            fst = R.cls.states_map.get(fv) if fv is not None else None
-            field = None if fv is None else (sidx(fst) if fst is not None else 900)
-            allowed = None
-            if sm is not None:
+                    return None
+                raise ValueError(op)
+
+            for op in sc["ops"]:
+                R.log = []
                 try:
-                    allowed = [evidx(e) for e in sm.allowed_events]
-                except Exception:  # noqa: BLE001
-                    allowed = None
-            elif field is not None and field != 900:
-                # construction failed: there is no machine to ask; fall back to the class
-                seen = []
-                for t in fst.transitions:
-                    for e in t.events:
-                        if evidx(e) not in seen:
-                            seen.append(evidx(e))
-                allowed = seen
-            _rank_depths(R.log)
-            obs.append({"out": out, "field": field, "allowed": allowed, "log": R.log})
-            if op[0] == "construct" and out[0] == "x":
-                break
+                    if driver == "threads":
+                        r = workers.call(len(obs) % 3, lambda op=op: step(op))
+                    else:
+                        r = step(op)
+                        if driver == "loop" and (asyncio.iscoroutine(r) or isinstance(r, asyncio.Future)):
+                            r = await r
+                    out = ["v", to_json(r)]
+                except Exception as e:  # noqa: BLE001
+                    out = ["x", exn_json(e)]
+                sm = box["sm"]
+                fv = getattr(model, "state", None)
+                fst = R.cls.states_map.get(fv) if fv is not None else None
+                field = None if fv is None else (sidx(fst) if fst is not None else 900)
+                allowed = None
+                if sm is not None:
+                    try:
+                        allowed = [evidx(e) for e in sm.allowed_events]
+                    except Exception:  # noqa: BLE001
+                        allowed = None
+                elif field is not None and field != 900:
+                    # construction failed: there is no machine to ask; fall back to the class
+                    seen = []
+                    for t in fst.transitions:
+                        for e in t.events:
+                            if evidx(e) not in seen:
+                                seen.append(evidx(e))
+                    allowed = seen
+                _rank_depths(R.log)
+                obs.append({"out": out, "field": field, "allowed": allowed, "log": R.log})
+                if op[0] == "construct" and out[0] == "x":
+                    break
+            return obs
+
+        workers = _Workers(3) if driver == "threads" else None
+        try:
+            if driver == "loop":
+                obs = asyncio.run(history())
+            else:
+                obs = _finish_sync(history())
+        finally:
+            if workers:
+                workers.close()
+        # (un-awaited coroutines are reported when their last reference goes away: no gc pass needed)
+    never = [str(w.message) for w in wlist if "never awaited" in str(w.message)]
+    if obs:
+        obs[0]["never_awaited"] = len(never)
+        obs[0]["overlap"] = R.overlap
     RUN = None
     return obs
 
